@@ -67,8 +67,10 @@ class Contract(object):
     def __init__(self, target, params=None, cases=None, requires=(), ensures=(), raises=None,
                  raises_ensures=None, returns=None, assigns=(), loops=None, inline=(), specns=None,
                  prop=None, note='', pure=False, may_raise_any=False, trusted=False, exc_ensures=(),
-                 setup=None, model=None, raises_local=None, raises_only_if=None, heavy=False, ghost=None, exc_fields=None):
+                 setup=None, model=None, raises_local=None, raises_only_if=None, heavy=False, ghost=None, exc_fields=None,
+                 at_call=None):
         self.target = target
+        self.at_call = at_call or {}    # callee name -> spec expressions over the CALLER's state, with _kw / _args bound
         self.exc_fields = exc_fields or {}    # fields known of an exception raised by this function (callers)
         self.ghost = ghost or {}        # name -> spec expression evaluated (and frozen) at function entry
         self.heavy = heavy              # many paths: explore in parallel worker processes
@@ -692,6 +694,36 @@ class Engine(object):
             ctx.assume(issub(cls_of(r.z), self.classes.const(fv.name)))
             ctx.assume(r.z != Z.NONE)
         return r
+
+    def at_call_obligations(self, ctx, fr, fv, args, kwargs, node, star):
+        """Obligations a contract places on the calls its function makes (stated over the
+        caller's state; `_kw` is the keyword mapping handed over, `_args` the positionals)."""
+        from .interp import VSpecFn
+        cur = self.current
+        name = None
+        selfv = None
+        f = fv
+        if isinstance(f, VBound):
+            selfv, f = f.selfv, f.func
+        if isinstance(f, VRepoFunc):
+            name = f.qualname
+        elif isinstance(f, VSpecFn):
+            name = f.name
+        specs = cur.at_call.get(name)
+        if not specs:
+            return
+        if star is not None and kwargs:
+            raise ContractError('at_call(%s): mixed explicit and ** keywords are not supported' % name)
+        kw = star if star is not None else ctx.alloc(HDict(conc=dict(kwargs)))
+        ghosts = {'_kw': kw, '_args': VTuple(list(args))}
+        if selfv is not None:
+            ghosts['_callee_self'] = selfv
+        sfr = self.spec_frame(fr, ghosts)
+        short = name.split('clastic.', 1)[-1]
+        for i, text in enumerate(specs):
+            g = self.eval_spec(ctx, sfr, text)
+            ctx.oblige('%s/at-call(%s)[%d]' % (ctx.func, short, i), g, 'K', node,
+                       note='at every call of %s: %s' % (short, text))
 
     def call_repo(self, ctx, fr, fv, args, kwargs, node, star, selfv):
         I = self.interp
